@@ -399,7 +399,7 @@ def loft(*surfaces):
     # make sure everything has the same dimension since we need to compute length
     surfaces = [s.clone().set_dimension(3) for s in surfaces]
     if len(surfaces)==2:
-        return surface_factory.edge_curves(surfaces)
+        return edge_surfaces(surfaces)
     elif len(surfaces)==3:
         # can't do cubic spline interpolation, so we'll do quadratic
         basis3 = BSplineBasis(3)
